@@ -9,6 +9,11 @@
 (***************************************************************************)
 EXTENDS Css, Json, SequencesExt
 
+MixedParent(path) ==
+  \E k \in SelIdx(path) : /\ \E j \in SelIdx(path) : j > k
+                          /\ Bind(SelLists(path), LAMBDA ls :
+                               LET n == Level(path, k) IN
+                               \E x, y \in 1..Len(ls[n]) : SpComplex(NormAt(ls[n][x], n), PS(ls, n - 1)) # SpComplex(NormAt(ls[n][y], n), PS(ls, n - 1)))
 \* winners of one environment, only the longhands that have a winner
 Compact(t, U) == [e \in Elems |-> [lh \in {l \in U : t[e][l] # NoWinner} |-> t[e][lh]]]
 CaseOf(id, sh) ==
@@ -23,6 +28,9 @@ CaseOf(id, sh) ==
                           /\ \E e \in Elems : info[a].m[e][1] >= 0 /\ info[b].m[e][1] >= 0
                           /\ \E x \in 1..Len(sh[a].decls), y \in 1..Len(sh[b].decls) :
                                \E u \in info[a].d[x].ex, w \in info[b].d[y].ex : u[1] = w[1],
+           \* a rule is nested under a selector list whose members differ in specificity
+           \* (expanding such a list instead of using :is() changes the specificity of the nested rule)
+           mixed |-> \E a \in 1..Len(sh) : MixedParent(sh[a].path),
            envs |-> [k \in 1..Len(envs) |-> [feats |-> envs[k].feats, conds |-> envs[k].conds]],
            win |-> [k \in 1..Len(envs) |-> Bind(WinTable(sh, info, envs[k]), LAMBDA t : Compact(t, U))]])))
 
